@@ -133,7 +133,17 @@ StepVerdict(tr, e, r, p) ==
    ELSE IF e.hastag /\ e.tag # e.twintag THEN "tag depends on the input buffer type or result mode"
    ELSE IF e.proj.has /\ e.proj.v # r.proj THEN "projected cache length differs from the model"
    ELSE "ok"
-EndVerdict(tr, p) == IF p # Len(tr.oneshot.out) THEN "concatenation of the pieces is shorter or longer than the one-shot result" ELSE "ok"
+\* the same history on a fresh object with one call given an output buffer LONGER than its input (documented: ValueError): if the call is
+\* accepted, nothing may depend on the length of the caller's buffer - every piece and tag equals what the plain run delivered - and the
+\* spare bytes stay untouched
+ProbeVerdict(tr) ==
+   LET q == tr.probe IN
+   IF ~q.has \/ q.exc = "ValueError" THEN "ok"
+   ELSE IF q.exc # "none" THEN "call with an output buffer longer than the input raised " \o q.exc
+   ELSE IF ~q.guard THEN "call with an output buffer longer than the input wrote beyond the length of the input"
+   ELSE IF q.outs # q.twinouts \/ q.tags # q.twintags \/ q.excs # q.twinexcs THEN "result depends on the length of the caller-supplied output buffer"
+   ELSE "ok"
+EndVerdict(tr, p) == IF p # Len(tr.oneshot.out) THEN "concatenation of the pieces is shorter or longer than the one-shot result" ELSE ProbeVerdict(tr)
 \* ---------------------------------------------------------------------------- stepping
 TInit == t = 1 /\ l = 1 /\ bad = Ok /\ pos = 0 /\ m = IF Len(Traces) > 0 THEN MInit(Traces[1]) ELSE [none |-> 0]
 TNext == /\ t <= Len(Traces)
